@@ -10,26 +10,29 @@ func init() {
 			p.Added = append(p.Added, items...)
 		}
 	}
+	add("C01", "generator: integer-named keys around the 8/16/32-bit widths (negative too), expiries beyond 2038, strings around 4/8/64 KiB, collections around 200/256/300 elements")
+	add("C03", "with a db filter half of the streams also switch to databases 10, 11, 12, 15; one value in 24 is the empty string")
+	add("C06", "key names with a closing brace ahead of the first opening brace (slot filter)")
 	add("C02", "entries reach the restorer through utils.NewRDBLoader with the parser as a concurrent task (channel capacity 0/1/2/1024)",
 		"1/10 of the runs reset the connection after a tape-chosen number of bytes: an error or abort is accepted, a success must still be exact",
-		"half of the chunked hashes carry a time shift")
-	add("C04", "1/8 of the runs: two sources, two DbSyncers in one process, one target; every group carries the checkpoint fields of its own source, final offsets are the ends of the two streams")
-	add("C05", "1/4 of the sync runs reset the source link after the hand-off: the reconnect PSYNC must carry the announced run id and announced offset + stream bytes + 1")
+		"half of the chunked hashes carry a time shift", "a sixth of the runs allow elements up to 70000 bytes (8/16/64 KiB boundaries inside ziplists)")
+	add("C04", "1/8 of the runs: two sources, two DbSyncers in one process, one target; every group carries the checkpoint fields of its own source, final offsets are the ends of the two streams", "a quarter of the streams carry values of 2-7 KiB (a resume then meets a backlog burst larger than the 8 KiB copy buffer); empty-string values")
+	add("C05", "1/4 of the sync runs reset the source link after the hand-off: the reconnect PSYNC must carry the announced run id and announced offset + stream bytes + 1", "dump mode: 1 run in 25 transfers an RDB of exactly one or two 8 MiB writer buffers (or one byte off)", "a third of the streams carry values of 2-7 KiB that arrive with the RDB tail")
 	add("C07", "1/8 of the runs reset one target connection after 20-4020 bytes (reported failure or full dataset; a logged restart of the full phase makes the counts per attempt)",
-		"restore mode with 1-3 input files and source.rdb.parallel 1-3", "slow storage (io_stall) in a third of the restore runs")
-	add("C08", "one link drop in three is an orderly close by the source (FIN)", "a quarter of the runs have a slow target (the full phase outlasts the first link drop)")
+		"restore mode with 1-3 input files and source.rdb.parallel 1-3", "slow storage (io_stall) in a third of the restore runs", "a quarter of the runs configure the target without REPLACE; the injected error can hit the RESTORE that follows the DEL (second attempt)")
+	add("C08", "one link drop in three is an orderly close by the source (FIN)", "a quarter of the runs have a slow target (the full phase outlasts the first link drop)", "a quarter of the streams carry values of 2-7 KiB")
 	add("C09", "a quarter of the runs close a side twice with different errors: the first close wins when the calls do not overlap",
-		"every statement of the pipe package is a scheduling point (lock-dropping changes)")
-	add("C10", "half of the encodings use bulk arguments that are slices of one buffer, which must be unchanged afterwards")
+		"every statement of the pipe package is a scheduling point (lock-dropping changes)", "the writer overwrites its buffer as soon as Write has returned")
+	add("C10", "half of the encodings use bulk arguments that are slices of one buffer, which must be unchanged afterwards", "1 top-level array in 60 has 1023-65537 elements", "an allocator refusal outside a simulated process counts as a rejection")
 	add("C11", "while mutants are judged the simulated allocator refuses single allocations above 4 MiB", "1 run in 4: two or three loaders at once under the scheduler; every payload must carry the CRC-64 of its own bytes", "RDB files with 1-8 missing trailer bytes must be rejected")
 	add("C12", "a third of the runs first decode four damaged payloads with valid trailers (a rejected payload must leave nothing behind)")
-	add("C13", "a third of the runs: two sources, two DbSyncers in one process; every connection's commands are exactly one source's expected sequence")
+	add("C13", "a third of the runs: two sources, two DbSyncers in one process; every connection's commands are exactly one source's expected sequence", "1 key in 16 is exactly a configured prefix")
 	add("C14", "1/6 of the runs let the real DbSyncer write the checkpoints (multi-db stream, killed mid-stream or after it) and the loader must return exactly the newest stored (offset, run id, db)",
-		"a reset inside ClearCheckpoint waives only the stale-removal clause")
-	add("C15", "shard-sync runs with 1-3 shards synced at once; each syncer's checkpoint key must hash into its own range")
+		"a reset inside ClearCheckpoint waives only the stale-removal clause", "checkpoint hash under the default or a slot-suffixed name (the other name, when planted, must stay untouched); databases 10, 12, 15")
+	add("C15", "shard-sync runs with 1-3 shards synced at once; each syncer's checkpoint key must hash into its own range", "1 run in 10 checks the latency probe key of 64 tape-chosen single-slot shards")
 	add("C16", "qps 3 and a slow source (SCANs taking 0.5-3 s)", "no target reply may be unread by the tool when Main returns")
 	add("C17", "a quarter of the runs find a longer earlier output at the output path", "slow storage (io_stall) in a third of the runs")
-	add("C18", "1/6 of the runs have 2-3 writers at once: the retained window must parse as a chain of whole Writes", "every statement of the backlog package is a scheduling point")
-	add("C19", "AUTH rejected by a server that echoes the arguments of the command it does not know (sync, restore, checkpoint, supervisor scenarios)", "unprotected source; supervisor round with a late master", "two more run paths: dump mode (CmdDump.Main against a master) and decode mode")
+	add("C18", "1/6 of the runs have 2-3 writers at once: the retained window must parse as a chain of whole Writes", "every statement of the backlog package is a scheduling point", "writers overwrite their buffers as soon as Write has returned")
+	add("C19", "AUTH rejected by a server that echoes the arguments of the command it does not know (sync, restore, checkpoint, supervisor scenarios)", "unprotected source; supervisor round with a late master", "two more run paths: dump mode (CmdDump.Main against a master) and decode mode", "after a source link reset half of the runs reject the continuing PSYNC with an error reply")
 	add("C20", "a quarter of the runs are a restart chain through the real DbSyncer.Sync: each discovery is followed by a refused PSYNC, the master role moves between restarts")
 }
